@@ -311,7 +311,9 @@ def slots(cx, run):
                     typed = True
             # value: the loop element itself
             v = e[3][0] if e[3] else None
-            unit = v is not None and (v[0] in ("proj", "var", "load") or v[0] == "call") and "to_vec" not in sym.show(v)
+            calls_ = [t_[1] for t_ in sym.walk(v) if isinstance(t_, tuple) and t_ and t_[0] == "call"] if v is not None else ["?"]
+            unit = v is not None and all(c_.endswith("Iterator>::next") or c_.endswith("::into_iter") or c_.endswith("AnnexBNalIter::new") for c_ in calls_) and \
+                (any(c_.endswith("Iterator>::next") for c_ in calls_) or v[0] == "var")
             run.check(empty and typed, "R4", "%s.%s first-wins" % (fn, field), "assigned only while empty and when the unit type is %d" % ty,
                       "slot `%s` is assigned without the guards `still empty` / `type == %d` (guards: %s)" % (field, ty, sigs[-4:]), mir.loc_of(node))
             run.check(unit, "R3", "%s.%s verbatim" % (fn, field), "slot := the iterated unit", "slot is assigned %s" % sym.show(v)[:100], mir.loc_of(node))
